@@ -19,14 +19,7 @@ Theorem C17_attr_roundtrip :
     | _ => True
     end ->
     parse_attr F float_parse false (py_repr F printable float_repr a) = to_pres a.
-Proof.
-  intros F fp fr pr [s | z | f] HF HS; cbn [py_repr to_pres].
-  - apply roundtrip_str_gen; (eapply Forall_impl; [| exact HS]); cbv beta.
-    + intros c [H _]. exact H.
-    + intros c [_ H] H'. left. exact (H H').
-  - apply roundtrip_int.
-  - apply roundtrip_float; apply HF.
-Qed.
+Proof. exact full_attr_roundtrip. Qed.
 Print Assumptions C17_attr_roundtrip.
 
 (* ... and it fails for the rest: a non-printable character beyond the BMP (U+E0001) is written as
@@ -37,9 +30,7 @@ Theorem C17_attr_roundtrip_refuted :
     exists s, parse_attr F float_parse false (repr_str printable s) <> PStr s
               /\ parse_attr F float_parse false (repr_str printable s)
                  = PStr [92; 85; 48; 48; 48; 101; 48; 48; 48; 49]%N.
-Proof.
-  intros F fp pr H. exists [917505%N]. destruct (roundtrip_refuted F fp pr H) as [A B]. split; assumption.
-Qed.
+Proof. exact full_attr_roundtrip_refuted. Qed.
 Print Assumptions C17_attr_roundtrip_refuted.
 
 (* with the proposed repair (the reader also accepts \UXXXXXXXX; fixes/C17_text_attr_U_escape.diff)
@@ -48,10 +39,7 @@ Theorem C17_attr_roundtrip_repaired :
   forall (F : Type) (float_parse : str -> option F) (printable : N -> bool) (s : str),
     Forall (fun c => (c < 1114112)%N) s ->
     parse_attr F float_parse true (repr_str printable s) = PStr s.
-Proof.
-  intros F fp pr s H. apply roundtrip_str_gen; [exact H |]. eapply Forall_impl; [| exact H].
-  intros c Hc _. right. split; [reflexivity |]. apply N.lt_trans with (1 := Hc). reflexivity.
-Qed.
+Proof. exact full_attr_roundtrip_repaired. Qed.
 Print Assumptions C17_attr_roundtrip_repaired.
 
 (* the header line  # name: repr  is split back into the name and the repr text, for every non-empty
@@ -63,9 +51,7 @@ Theorem C17_header_line_roundtrip :
     (forall s, parse_line (header_line name (repr_str printable s)) = Some (name, repr_str printable s))
     /\ (forall z, parse_line (header_line name (repr_int z)) = Some (name, repr_int z))
     /\ (forall t, tight t -> parse_line (header_line name t) = Some (name, t)).
-Proof.
-  intros pr name Hn Hc. repeat split; intros; apply header_roundtrip; auto using tight_repr_str, tight_repr_int.
-Qed.
+Proof. exact full_header_line_roundtrip. Qed.
 Print Assumptions C17_header_line_roundtrip.
 
 (* ---- (b) layout of the text format ------------------------------------------------------------- *)
@@ -79,13 +65,7 @@ Theorem C17_layout :
     /\ length (flatten a sh) = prod sh
     /\ (forall ix, in_bounds sh ix = true -> nth_error (all_idx sh) (ravel sh ix) = Some ix)
     /\ (forall ix, in_bounds sh ix = true -> unflatten dflt (flatten a sh) sh ix = a ix).
-Proof.
-  intros R a dflt sh. repeat split.
-  - apply index_column_spec.
-  - apply flatten_length.
-  - apply all_idx_ravel.
-  - intros ix H. apply unflatten_flatten. exact H.
-Qed.
+Proof. exact full_layout. Qed.
 Print Assumptions C17_layout.
 
 (* the reader's strided slice of a scale column gives the axis scale back *)
@@ -116,12 +96,7 @@ Theorem C17_no_overwrite :
      lookup fs q = Some k -> lookup (fst (make_hdf5file fs folder name content)) q = Some k)
   /\ (forall ops fs p k,
      Forall (fun o => may_replace o p = false) ops -> lookup fs p = Some k -> lookup (srun fs ops) p = Some k).
-Proof.
-  repeat split.
-  - intros fs fo n f c q k H. apply write_no_overwrite. exact H.
-  - intros fs fo n c q k H. apply make_h5_no_overwrite. exact H.
-  - intros ops fs p k. apply srun_keeps.
-Qed.
+Proof. exact full_no_overwrite. Qed.
 Print Assumptions C17_no_overwrite.
 
 (* order on fixed-width decimal strings = numeric order *)
